@@ -24,33 +24,47 @@ CK = 'libherokubuildpack::inventory::checksum::'
 
 
 def filter_conjunction(prog, sl, f):
-    """set of normalised tests of a filter closure `a && b && c && d`"""
-    tests = []
+    """set of normalised tests that must all hold for a filter closure to return true.  Handles `a && b && c && d`,
+    early `return false` on `x != y`, and a final `true` literal: every non-false return site contributes the boolean
+    decisions dominating it (with `ne == false` read as `eq == true`) plus its own value; all such sites must agree"""
+    per_site = []
     for bi, v, conds in arm_defs(f, 0, sl):
         v0 = strip(v)
         if v0 == ('const', False):
             continue
-        if any(cd.kind == 'bool' and cd.outcome is not True for cd in conds):
-            return None
-        tests = [cd.value for cd in conds if cd.kind == 'bool'] + [v0]
-    out = set()
-    for t in tests:
-        t = strip(t)
-        if t[0] != 'call':
-            return None
-        name = t[1].split('::')[-1]
-        args = []
-        for a in t[2]:
-            a = strip(a)
-            if a[0] == 'field':
-                args.append('artifact.' + a[2])
-            elif a[0] == 'upvar' or a[0] == 'param':
-                args.append('captured')
-            else:
-                # captured variables resolve to the parent's parameters
-                args.append('captured' if a[0] in ('param',) else vstr(a)[:30])
-        out.add((name,) + tuple(sorted(args)))
-    return out
+        tests = []
+        for cd in conds:
+            if cd.kind != 'bool':
+                continue
+            t = strip(cd.value)
+            if t[0] != 'call':
+                return None
+            name = t[1].split('::')[-1]
+            if name == 'ne' and cd.outcome is False:
+                name = 'eq'
+            elif cd.outcome is not True:
+                return None
+            tests.append((name, t[2]))
+        if v0 != ('const', True):
+            if v0[0] != 'call':
+                return None
+            tests.append((v0[1].split('::')[-1], v0[2]))
+        out = set()
+        for name, targs in tests:
+            args = []
+            for a in targs:
+                a = strip(a)
+                if a[0] == 'field':
+                    args.append('artifact.' + a[2])
+                elif a[0] in ('param', 'upvar'):
+                    args.append('captured')
+                else:
+                    args.append(vstr(a)[:30])
+            out.add((name,) + tuple(sorted(args)))
+        per_site.append(out)
+    if not per_site or any(x != per_site[0] for x in per_site):
+        return None if not per_site else frozenset().union(*per_site) if False else (per_site[0] if all(x == per_site[0] for x in per_site) else None)
+    return per_site[0]
 
 
 def run(ctx, rep):
